@@ -36,6 +36,39 @@ def run(ctx: RuleContext):
     ctx.sub(check_mode_table, ctx)
     ctx.reuse("C09.5", check_failed_check_binds_no_structure, ctx)
     ctx.sub(check_structure_before_leaves, ctx)
+    ctx.sub(check_structure_is_leaftype_relative, ctx)
+
+
+def check_structure_is_leaftype_relative(ctx):
+    """C09.7: "the structure of a tree" is relative to the leaf type: a tuple is one leaf of `PyTree[tuple[int, int]]`.  It is computed
+    once, by `tree_flatten(<value>, is_leaf=<leaf predicate>)`; every comparison works on that structure (or on placeholder trees rebuilt
+    from it).  A comparison that hands the raw value to `tree_map` / `tree_leaves` / `tree_structure` again -- without the leaf predicate --
+    takes container leaves apart and compares a different structure than the one that was bound."""
+    m = ctx.model
+    f = m.func("_pytree_type._MetaPyTree._check")
+    ctx.saw(f)
+    obj = f.params[1] if len(f.params) > 1 else "obj"
+    uses = [x for x in ast.walk(f.node) if isinstance(x, ast.Name) and x.id == obj and isinstance(x.ctx, ast.Load)]
+    parents = {}
+    for p_ in ast.walk(f.node):
+        for c_ in ast.iter_child_nodes(p_):
+            parents[id(c_)] = p_
+    n_ok = 0
+    for u in uses:
+        c = parents.get(id(u))
+        if isinstance(c, ast.Call) and any(u is a for a in c.args):
+            fn_ = norm(c.func).split(".")[-1]
+            leaf_pred = any(k.arg == "is_leaf" and "leaftype" in norm(k.value) for k in c.keywords)
+            if fn_ == "tree_flatten" and leaf_pred:
+                n_ok += 1
+                continue
+            if fn_ in ("tree_map", "tree_leaves", "tree_structure", "tree_flatten", "tree_flatten_with_path", "tree_leaves_with_path"):
+                ctx.bad("C09.7", f, c, f"`{short(c, 70)}` walks the raw value again, without the leaf-type predicate: for a leaf type that is itself a container (`PyTree[tuple[int, int], ..]`) "
+                        "the leaves are taken apart, so the structure that is compared is not the structure that was bound under the name", construct=f"raw value re-walked by {fn_}")
+    ctx.counters["flatten_with_leaf_predicate"] = n_ok
+    ctx.floor("C09.7", "flatten_with_leaf_predicate", 1)
+    if not any(fd.rule == "C09.7" for fd in ctx.findings):
+        ctx.ok("C09.7", f.qualname, f"the value is walked once, by tree_flatten(.., is_leaf=<leaf predicate>); comparisons use the resulting structure ({len(uses)} use(s) of `{obj}`)")
 
 
 def check_structure_before_leaves(ctx):
@@ -606,7 +639,9 @@ def check_mode_table(ctx):
     # start: the CFG node (test or statement) that evaluates the leading-token comparison
     starts = [n for n in g.live_nodes() if n.ast is not None and n.kind in ("test", "stmt") and any(x is first_test for x in ast.walk(n.ast))]
     need(len(starts) == 1, "C09.4: the node evaluating the leading-`...` test is not unique in the CFG")
-    leaf_loops = {n.id for n in g.live_nodes() if n.kind == "for" and ("leaves" in norm(n.ast.iter))}
+    # the per-leaf loop: over the flattened leaves of the value (not the loop over the bottom-layer pieces `dummy_leaves` of the suffix comparison)
+    leaf_loops = {n.id for n in g.live_nodes() if n.kind == "for" and ("leaves" in norm(n.ast.iter)) and "dummy" not in norm(n.ast.iter)
+                  and not any(isinstance(x_, ast.Call) and isinstance(x_.func, ast.Name) and "has_structure" in x_.func.id for b_ in n.ast.body for x_ in ast.walk(b_))}
 
     # the three comparison algorithms, recognised by what decides them
     def site_kind(x):
@@ -627,6 +662,15 @@ def check_mode_table(ctx):
                 return "S"
             return "?"
         guards = [i for i in ast.walk(f.node) if isinstance(i, ast.If) and any(y is x for b_ in i.body + i.orelse for y in ast.walk(b_))]
+        # the S comparison spelled as a loop over the bottom-layer pieces: `for piece in dummy_leaves: if not has_structure(piece): return False`
+        for lp_ in ast.walk(f.node):
+            if isinstance(lp_, ast.For) and ("dummy_leaves" in norm(lp_.iter) or "tree_leaves" in norm(lp_.iter)) and isinstance(lp_.target, ast.Name):
+                for i in guards:
+                    if any(i is y for b_ in lp_.body for y in ast.walk(b_)) and any(y is x for b_ in i.body for y in ast.walk(b_)):
+                        tt_ = i.test
+                        if isinstance(tt_, ast.UnaryOp) and isinstance(tt_.op, ast.Not) and isinstance(tt_.operand, ast.Call) and "has_structure" in norm(tt_.operand.func) \
+                                and [norm(a_) for a_ in tt_.operand.args] == [lp_.target.id]:
+                            return "S"
         for i in sorted(guards, key=lambda i_: -i_.lineno):
             t_ = norm(i.test)
             in_body = any(y is x for b_ in i.body for y in ast.walk(b_))
@@ -652,6 +696,14 @@ def check_mode_table(ctx):
         """which of the three comparisons this node evaluates (P: the tree_map that raises; S: the test over the bottom-layer pieces;
         E: structure vs composed structure)"""
         a_ = n.ast
+        if a_ is not None and n.kind == "for" and isinstance(a_, ast.For):
+            # the S comparison spelled as a loop: `for piece in <bottom-layer pieces>: if not has_structure(piece): return False`
+            it_ = norm(a_.iter)
+            body_ = " ; ".join(norm(x_) for x_ in a_.body)
+            if ("dummy_leaves" in it_ or "tree_leaves" in it_) and ("has_structure" in body_ or "tree_structure" in body_) and \
+                    any(isinstance(x_, ast.Return) and isinstance(x_.value, ast.Constant) and x_.value.value is False for b_ in a_.body for x_ in ast.walk(b_)):
+                return "S"
+            return None
         if a_ is None or n.kind not in ("stmt", "test"):
             return None
         t_ = norm(a_)
